@@ -3,6 +3,8 @@
 // Node that receives frames from a scripted peer over the simulated TCP.
 #include "worlds/net_common.hpp"
 
+#include <algorithm>
+
 using namespace wl;
 namespace pr = ephemeralnet::protocol;
 
@@ -37,7 +39,8 @@ Plan gen_c13(sk::Rng& r, Tier) {
         Op op;
         op.k = "frame";
         // kind: 0 pristine, 1 bit flip, 2 truncate, 3 extend, 4 swap ranges, 5 other key, 6 valid MAC over undecodable bytes, 7 MAC of a prefix
-        const std::int64_t kind = r.chance(2, 5) ? 0 : r.range(1, 8);
+        // kind 9: the MAC's own bytes rearranged or changed so that simple folds of it (XOR / sum over bytes, 16-, 32- or 64-bit words) stay equal
+        const std::int64_t kind = r.chance(2, 5) ? 0 : r.range(1, 9);
         op.a = {kind, static_cast<std::int64_t>(r.below(100000)), r.range(1, 40), static_cast<std::int64_t>(r.below(8))};
         p.ops.push_back(op);
     }
@@ -104,6 +107,26 @@ void exec_c13(const Plan& p, Ctx& ctx) {
                 ctx.boundary("valid_mac_over_undecodable_body");
                 break;
             }
+            case 9: {
+                // The MAC keeps every byte value it had (or changes two bytes by opposite amounts), only not where it was: a comparison
+                // that reduces the difference first (XOR- or sum-folds words and tests the fold) cannot tell. Sub-kind from op.at(3).
+                std::uint8_t* mac = bytes.data() + (len - 32);
+                const std::size_t i = static_cast<std::size_t>(op.at(1)) % 32;
+                const auto before = std::vector<std::uint8_t>(mac, mac + 32);
+                switch (op.at(3) % 8) {
+                    case 0: std::swap(mac[i % 24], mac[i % 24 + 8]); break;                                   // two bytes one 64-bit lane apart
+                    case 1: std::swap(mac[i % 16], mac[i % 16 + 16]); break;                                  // two lanes apart
+                    case 2: { std::uint8_t w[8]; std::memcpy(w, mac, 8); std::memmove(mac, mac + 8, 24); std::memcpy(mac + 24, w, 8); break; }   // 64-bit words rotated
+                    case 3: { const std::uint8_t mask = static_cast<std::uint8_t>(1u << (op.at(2) % 8)); mac[i % 24] ^= mask; mac[i % 24 + 8] ^= mask; break; }  // same mask, same lane position
+                    case 4: std::swap(mac[i % 28], mac[i % 28 + 4]); break;                                   // one 32-bit word apart
+                    case 5: { mac[i % 31] = static_cast<std::uint8_t>(mac[i % 31] + 1); mac[i % 31 + 1] = static_cast<std::uint8_t>(mac[i % 31 + 1] - 1); break; }  // byte sum preserved
+                    case 6: std::reverse(mac, mac + 32); break;
+                    default: std::swap(mac[i % 31], mac[i % 31 + 1]); break;                                  // neighbours
+                }
+                if (std::equal(before.begin(), before.end(), mac)) mac[i] ^= 0x01;  // the rearrangement was the identity for this MAC: fall back to a bit flip
+                ctx.boundary("mac_rearranged_fold_preserving");
+                break;
+            }
             case 8: {
                 // signed with a key that differs from the session key in a single bit
                 auto near = cn.key;
@@ -160,7 +183,7 @@ Scenario make_c13() {
     s.real_components = {"Node (handle_transport_message, handle_acknowledge)", "SessionManager receive_loop", "Message::decode_signed", "HmacSha256::verify", "ReputationManager"};
     s.stub_components = {"OS: threads -> fibers, sockets -> simulated TCP, clock, entropy", "damage is applied to the signed plaintext before transport encryption (equivalent to in-flight damage under a stream cipher)"};
     s.assumptions = {"acceptance is observed through the reputation score; at most 40 pristine frames per run so that the score stays above its clamp"};
-    s.rule = "plan = network knobs + 4..36 frames, each pristine or damaged (bit flip anywhere incl. the MAC, truncation, extension, byte swap, another peer's key, a key one bit off, exact MAC over undecodable bytes, MAC over a prefix); non-trivial = at least one damaged frame; distinct = plan hash";
+    s.rule = "plan = network knobs + 4..36 frames, each pristine or damaged (bit flip anywhere incl. the MAC, truncation, extension, byte swap, the MAC's own bytes rearranged so that XOR/sum folds over 8/16/32/64-bit words are preserved, another peer's key, a key one bit off, exact MAC over undecodable bytes, MAC over a prefix); non-trivial = at least one damaged frame; distinct = plan hash";
     s.gen = gen_c13; s.exec = exec_c13; s.kernel_knobs = net_knobs2;
     s.quick_runs = 3000; s.thorough_runs = 150000; s.quick_secs = 40; s.thorough_secs = 900;
     return s;
@@ -269,16 +292,20 @@ void exec_c15(const Plan& p, Ctx& ctx) {
                     const auto var = static_cast<std::uint64_t>(op.at(2));
                     a.endpoint = (var & 1) ? std::string{} : std::string(sz % 200, 'e') + ":" + std::to_string(v % 60000);
                     a.ttl = seconds(static_cast<std::int64_t>(v % 100000));
+                    // the ends of the wire ranges (TTL is a u32, the nonce a u64, lengths are u32) in one variant out of eight
+                    if ((var >> 5) % 8 == 3) { static const std::int64_t edge[] = {0, 1, 0x7fffffffLL, 0x80000000LL, 0xfffffffeLL, 0xffffffffLL}; a.ttl = seconds(edge[v % 6]); ctx.boundary("ttl_at_wire_range_edge"); }
                     a.manifest_uri = (var & 2) ? std::string{} : "eph://" + std::string(sz, 'm') + std::to_string(v);
                     const std::size_t shard_count = ((var >> 2) & 7) == 0 ? 0 : ((var >> 2) & 7) == 7 ? 40 : v % 7;
                     for (std::size_t i = 0; i < shard_count; ++i) a.assigned_shards.push_back(static_cast<std::uint8_t>(i + v));
                     if (a.endpoint.empty() && a.manifest_uri.empty() && a.assigned_shards.empty()) ctx.boundary("announce_all_variable_fields_empty");
                     a.work_nonce = v * 0x9e3779b97f4a7c15ULL;
+                    if ((var >> 5) % 8 == 5) { static const std::uint64_t edge[] = {0, 1, 0xffffffffULL, 0x100000000ULL, 0x7fffffffffffffffULL, 0xffffffffffffffffULL}; a.work_nonce = edge[v % 6]; ctx.boundary("nonce_at_wire_range_edge"); }
+                    if ((var >> 5) % 8 == 6) { a.assigned_shards.clear(); for (int i = 0; i < 255; ++i) a.assigned_shards.push_back(static_cast<std::uint8_t>(i)); a.endpoint = std::string(65535, 'E'); ctx.boundary("announce_with_255_shards_and_64k_endpoint"); }
                     m.payload = a;
                     break;
                 }
                 case 2: m.type = pr::MessageType::Request; m.payload = pr::RequestPayload{make_id(static_cast<std::uint8_t>(v), 0x22), me.id}; break;
-                case 3: { m.type = pr::MessageType::Chunk; pr::ChunkPayload c{}; c.chunk_id = make_id(static_cast<std::uint8_t>(v), 0x23); c.data = make_payload(sz, v); c.ttl = seconds(static_cast<std::int64_t>(v % 4000000000ULL)); m.payload = c; break; }
+                case 3: { m.type = pr::MessageType::Chunk; pr::ChunkPayload c{}; c.chunk_id = make_id(static_cast<std::uint8_t>(v), 0x23); c.data = make_payload(sz, v); c.ttl = seconds(static_cast<std::int64_t>(v % 4000000000ULL)); if (v % 5 == 0) { static const std::int64_t edge[] = {0, 0x7fffffffLL, 0x80000000LL, 0xffffffffLL}; c.ttl = seconds(edge[(v / 5) % 4]); } m.payload = c; break; }
                 case 4: m.type = pr::MessageType::Acknowledge; m.payload = pr::AcknowledgePayload{make_id(static_cast<std::uint8_t>(v), 0x24), me.id, (v & 1) != 0}; break;
                 case 5: m.type = pr::MessageType::TransportHandshake; m.payload = pr::TransportHandshakePayload{static_cast<std::uint32_t>(v * 2654435761u), v * 77, static_cast<std::uint8_t>(v)}; break;
                 default: m.type = pr::MessageType::HandshakeAck; m.payload = pr::HandshakeAckPayload{(v & 1) != 0, static_cast<std::uint8_t>(v >> 1), static_cast<std::uint32_t>(v * 40503u)}; break;
